@@ -165,23 +165,65 @@ def replay_objects(rec, grid_msg):
 
 def describe(rep):
     what = "is_valid_solution(n=%d, k=%d, input=%s, nonce=%s, " % (rep["n"], rep["k"], rep["input"][:24] + "..", rep["nonce"][:16] + "..")
+    obs = rep.get("observed")
     if rep["kind"] == "grid":
         what += "soln = %d bytes of 0x%02x)" % (rep["len"], rep["fill"])
         exp = "an error (constant fill: all indices equal, or wrong length / invalid parameters)"
     else:
         what += "soln = %d bytes [%s])" % (len(rep["solnhex"]) // 2, rep.get("cand", ""))
-        exp = "the verdict of Equihash!SolVerdict (the opposite class, and never a panic)"
-    return "%s returned %s %s; the specification requires %s" % (what, rep.get("observed"), rep.get("panic_message", ""), exp)
+        exp = {"ok": "a rejection: Equihash!SolVerdict = \"err\" (wrong length, or the decoded indices are not a valid solution "
+                     "for the independently computed rows)",
+               "err": "acceptance: Equihash!SolVerdict = \"ok\" (right length, distinct canonically ordered indices, all "
+                      "collisions hold, total XOR zero)"}.get(obs, "an accept/reject verdict, never a panic")
+    return "%s returned %s %s; the specification requires %s" % (what, obs, rep.get("panic_message", ""), exp)
+
+
+CHUNK = 10000
 
 
 def validate(ctx, d, trace, expect_records, grid_msg=("", ""), max_reports=3):
-    """TLC validation of one trace; every rejection is triaged (harness defect vs verdict disagreement)
-    and reported; validation continues behind a rejected record. Returns the number of records accepted."""
+    """TLC validation of a trace in chunks of CHUNK records (bounded memory). Returns records accepted."""
+    with open(trace) as f:
+        total = sum(1 for _ in f)
+    if total != expect_records:
+        raise lib.ToolError("trace %s: %d records on disk, %d expected" % (trace, total, expect_records))
+    if total <= CHUNK:
+        return validate_chunk(ctx, d, trace, total, 0, grid_msg, max_reports)
+    accepted = 0
+    with open(trace) as f:
+        part, base, idx = [], 0, 0
+        for line in f:
+            part.append(line)
+            if len(part) == CHUNK:
+                accepted += _validate_part(ctx, d, trace, part, base, idx, grid_msg, max_reports)
+                base += len(part)
+                idx += 1
+                part = []
+                if len(ctx.violations) >= 2 * max_reports:
+                    return accepted
+        if part:
+            accepted += _validate_part(ctx, d, trace, part, base, idx, grid_msg, max_reports)
+    return accepted
+
+
+def _validate_part(ctx, d, trace, part, base, idx, grid_msg, max_reports):
+    p = ctx.path("%s.part%d" % (os.path.basename(trace), idx))
+    with open(p, "w") as f:
+        f.writelines(part)
+    n = validate_chunk(ctx, d, p, len(part), base, grid_msg, max_reports, shown=os.path.basename(trace))
+    os.remove(p)
+    return n
+
+
+def validate_chunk(ctx, d, trace, expect_records, base, grid_msg=("", ""), max_reports=3, shown=None):
+    """TLC validation of one trace file; every rejection is triaged (harness defect vs verdict
+    disagreement) and reported; validation continues behind a rejected record."""
     accepted_total = 0
     offset = 0
     reports = 0
     cur = trace
     remaining = expect_records
+    shown = shown or os.path.basename(trace)
     while True:
         ok, n, detail, res = lib.tlc_validate(ctx, d, "Trace_Equihash", "Trace_Equihash.cfg", cur, timeout=2400, xmx="8g")
         lib.account_tlc(ctx, res)
@@ -195,22 +237,22 @@ def validate(ctx, d, trace, expect_records, grid_msg=("", ""), max_reports=3):
         if rec is None:
             raise lib.ToolError("rejected record %d not found in %s" % (n, cur))
         # well-formedness of the record alone: if that fails, the driver (not the code under test) is wrong
-        one = ctx.path("rejected_%d.ndjson" % (offset + n))
+        one = ctx.path("rejected_%d.ndjson" % (base + offset + n))
         with open(one, "w") as f:
             f.write(json.dumps(rec) + "\n")
         okwf, _, _, _ = lib.tlc_validate(ctx, d, "Trace_Equihash", "Trace_Equihash.cfg", one, env_extra={"C19MODE": "wf"})
         if not okwf:
             raise lib.ToolError("driver logged an ill-formed record (index %d of %s): decoder/rows disagree with the "
-                                "specification's encoding - harness defect, not a violation" % (offset + n, trace))
+                                "specification's encoding - harness defect, not a violation" % (base + offset + n, shown))
         for rep in replay_objects(rec, grid_msg):
-            lib.violation(ctx, rep, "record %d of %s rejected by Trace_Equihash: %s" % (offset + n, os.path.basename(trace), describe(rep)))
+            lib.violation(ctx, rep, "record %d of %s rejected by Trace_Equihash: %s" % (base + offset + n, shown, describe(rep)))
         reports += 1
         accepted_total += n - 1
         remaining -= n
         offset += n
         if reports >= max_reports or remaining <= 0:
             return accepted_total
-        nxt = ctx.path("rest_%d.ndjson" % offset)
+        nxt = ctx.path("rest_%d.ndjson" % (base + offset))
         with open(cur) as fi, open(nxt, "w") as fo:
             for i, line in enumerate(fi, 1):
                 if i > n:
